@@ -331,6 +331,8 @@ class Ctx(object):
         ``units`` is a list (sharded over workers); ``expand`` (default:
         identity) yields the fully specified cases of a unit.
         """
+        if getattr(self, "envstrict_all", False) and not name.endswith(("/strict-environment", "/fp-strict", "/warnings-as-errors")):
+            envstrict = True
         part = Part(name, one, engine)
         self.parts[name] = part
         part.units = units
